@@ -12,8 +12,12 @@ RULE = ("cases = (file length, positions of the two delimiter bytes, sequence of
         "non-trivial = some buffer starts mid-chunk or the string cache was populated (measured on the model's final state)")
 TRUSTED = ["RangeMap overwrite semantics modelled as newest-first list lookup; FrozenVec/Mutex not modelled (single-threaded histories)",
            "harness h_symbols/src/cc.rs compares the returned bytes with the file at the requested start (K/W)"]
-ASSUMPTIONS = ["concurrent readers are not modelled: both mutexes serialise the critical sections; exercised only by sequential histories here",
+ASSUMPTIONS = ["concurrent readers: the model takes each call as one atomic step (the two mutexes serialise the critical sections; C13_schedule_independent then covers every interleaving); "
+               "the multi-threaded stream runs real threads against one cache and compares every answer with the specification - it samples schedules, it does not enumerate them",
                "round_up(value + CHUNK_SIZE - 1) overflowing u64 for files near 2^64 bytes is outside what is exercised"]
+
+
+_state = {}
 
 
 def prove():
@@ -60,6 +64,27 @@ def gen(tier, rng, scale):
                 items.append(["U", off, e, rng.choice([0, 0, 0, 10])])
             starts.append(off)
         cases.append({"flen": flen, "zs": zs, "ts": ts, "items": items})
+    # several threads on one shared cache, released together, many rounds per case: each thread starts with reads of chunks nobody has read yet
+    # (simultaneous misses), then re-reads its own and the others' ranges; the last element of a call is its thread
+    mrng = rng.fork("threads")
+    for ci in range((40 if quick else 600) * scale):
+        nth = mrng.choice([2, 4, 8, 8])
+        nchunks = mrng.choice([nth, nth + 1, 2 * nth])
+        flen = nchunks * CH + mrng.choice([0, 0, 7, CH // 2])
+        zs = sorted(set(mrng.below(flen) for _ in range(mrng.range(0, 4))))
+        items = []
+        for t in range(nth):
+            k = t % nchunks
+            for j in range(mrng.range(1, 5)):
+                if j and mrng.chance(1, 2):
+                    k = mrng.below(nchunks)
+                off = k * CH + mrng.choice([0, 1, 100, CH - 8, mrng.below(CH)])
+                if mrng.chance(1, 5) and zs:
+                    z = mrng.choice(zs)
+                    items.append(["U", max(0, z - mrng.choice([0, 3, 50])), min(flen, z + mrng.choice([1, 2, 60])), 0, t])
+                else:
+                    items.append(["A", off, mrng.choice([1, 8, 71, 4096, CH, CH + 1]) if off + CH + 1 <= flen else mrng.choice([1, 8]), t])
+        cases.append({"flen": flen, "zs": zs, "ts": [], "items": items, "mt": True, "rounds": 150 if quick else 400})
     return cases
 
 
@@ -89,7 +114,57 @@ def _coq_obs(tok):
         return "OK %s" % tok[1:]
     if tok[0] == "W":
         return "OW %s" % tok[1:]
+    if tok[0] == "D":
+        return "OW 0"            # the outcome of one call differed between rounds of a multi-threaded case
     return {"E": "OE", "P": "OP"}[tok]
+
+
+def _threads(c):
+    th = {}
+    for it in c["items"]:
+        th.setdefault(it[-1], []).append(it[:-1])
+    return [th[k] for k in sorted(th)]
+
+
+def _evaluate_mt(cases, binp):
+    lines = []
+    for c in cases:
+        t = ["F", str(c["flen"])]
+        for z in c["zs"]:
+            t += ["Z", str(z)]
+        t += ["R", str(c.get("rounds", 100))]
+        for ops in _threads(c):
+            t.append("X")
+            for it in ops:
+                t += [str(x) for x in it]
+        lines.append(" ".join(t))
+    rc, outl, err = K.run_lines(binp, ["ccmt"], lines, timeout=3000)
+    if rc != 0 or len(outl) != len(cases):
+        raise K.TieBroken("h_symbols ccmt failed (rc=%s, %d/%d lines): %s" % (rc, len(outl), len(cases), err[-500:]))
+    terms = []
+    st = _state.setdefault("mt", {"cases": 0, "threads": 0, "calls": 0, "rounds": 0})
+    for c, l in zip(cases, outl):
+        ths = _threads(c)
+        obs = [x.split() for x in l.split(" / ")] if ths else []
+        if len(obs) != len(ths):
+            obs = [["P"] * len(o) for o in ths]
+        st["cases"] += 1
+        st["threads"] += len(ths)
+        st["calls"] += sum(len(o) for o in ths)
+        st["rounds"] += c.get("rounds", 100)
+        c["_out"] = l[:300]
+        terms.append("(%d, %s, [], %s)" % (c["flen"], K.coq_list([str(z) for z in c["zs"]]),
+                                           K.coq_list(["(%s, %s)" % (K.coq_list([_coq_op(it) for it in o]), K.coq_list([_coq_obs(t) for t in b])) for o, b in zip(ths, obs)])))
+    shards = ["Definition cases : list (N * list N * list N * list (list op * list obs)) := %s.\nEval vm_compute in (map verdict_mt cases).\n" % K.coq_list(ch)
+              for ch in K.chunked(terms, K.NCPU)]
+    try:
+        res = K.coq_eval(PROP, "From SV Require Import Model.ChunkCache Tie.C13.\nOpen Scope N_scope.", shards)
+    except RuntimeError as ex:
+        raise K.TieBroken(str(ex))
+    flat = [v for r in res for v in r]
+    if len(flat) != len(cases):
+        raise K.TieBroken("verdict count mismatch %d vs %d" % (len(flat), len(cases)))
+    return flat
 
 
 def evaluate(cases):
@@ -98,6 +173,15 @@ def evaluate(cases):
     ok, log, bindir = K.cargo_build("h_symbols")
     if not ok:
         raise K.TieBroken("harness h_symbols does not build against the current tree:\n" + log[-1500:])
+    mt = [(i, c) for i, c in enumerate(cases) if c.get("mt")]
+    if mt:
+        out = [None] * len(cases)
+        for (i, _), v in zip(mt, _evaluate_mt([c for _, c in mt], os.path.join(bindir, "h_symbols"))):
+            out[i] = v
+        rest = [(i, c) for i, c in enumerate(cases) if not c.get("mt")]
+        for (i, _), v in zip(rest, evaluate([c for _, c in rest])):
+            out[i] = v
+        return out
     rc, outl, err = K.run_lines(os.path.join(bindir, "h_symbols"), ["cc"], [_line(c) for c in cases])
     if rc != 0 or len(outl) != len(cases):
         raise K.TieBroken("h_symbols cc failed (rc=%s, %d/%d lines): %s" % (rc, len(outl), len(cases), err[-500:]))
@@ -123,7 +207,11 @@ def known(case):
 
 
 def describe(case):
-    return {"file_len": case["flen"], "zero_bytes_at": case["zs"], "calls": " ".join(" ".join(str(x) for x in it) for it in case["items"][:20])}
+    d = {"file_len": case["flen"], "zero_bytes_at": case["zs"], "calls": " ".join(" ".join(str(x) for x in it) for it in case["items"][:20])}
+    if case.get("mt"):
+        d["threads"] = "the last number of every call is its thread; all threads start together on one fresh cache, %d rounds" % case.get("rounds", 100)
+        d["observed"] = case.get("_out")
+    return d
 
 
 def distribution(cases):
@@ -132,12 +220,15 @@ def distribution(cases):
         d["file_lens"][str(c["flen"])] = d["file_lens"].get(str(c["flen"]), 0) + 1
         for it in c["items"]:
             d["calls"][it[0]] += 1
+            if c.get("mt"):
+                continue
             if it[0] == "U" and it[1] == it[2]:
                 d["empty_until"] += 1
             if it[0] == "A" and it[1] + it[2] >= 2**64:
                 d["overflowing"] += 1
             elif it[0] == "A" and it[1] + it[2] > c["flen"]:
                 d["oob"] += 1
+    d["multi_threaded"] = _state.get("mt", {})
     return d
 
 
